@@ -7,7 +7,7 @@ META = {
     'level': 'exploration',
     'rule': ('finite table: every expression-valued slot (found by walking ast.parse of each PARENT template: all operators, call/subscript/attribute parts, comprehension '
              'parts, lambda/conditional parts, starred/keyword values, await/yield operands, statement-level expression slots, pattern slots) x every CHILD kind (one per '
-             'precedence class and per needs-parentheses-for-other-reasons class, incl. multi-line without brackets and with a comment) x code form (source, pure AST, FST) x '
+             'precedence class and per needs-parentheses-for-other-reasons class, incl. multi-line without brackets and with a comment, and replacements that bring their own needed parentheses around a line break or a comment ending in a backslash) x code form (source, pure AST, FST) x '
              'entry point (replace, put, attribute/view assignment; for list slots also put_slice(one=True), insert+remove, view slice assignment, append to a shortened list) '
              'x pars in {auto, True}. Expected tree = pure-AST replacement (contexts fixed like the compiler); the combination is in scope iff '
              'ast.parse(ast.unparse(expected)) round-trips to the same structure. Oracle: ast.parse(root.src) has exactly the expected structure and the C01 oracle holds. '
@@ -40,7 +40,9 @@ PARENTS = ['a + b', 'a - b', 'a * b', 'a ** b', 'a @ b', 'a // b', 'a % b', 'a <
 CHILDREN = ['x', '1', '-1', 'x + y', 'x * y', 'x ** y', '-x', 'not x', 'x and y', 'x or y', 'x < y', 'x if y else z', 'lambda: x', 'lambda: (x, y)', 'x.y', 'x[y]', 'x(y)', '[x, y]', '(x, y)', 'x, y', '{x: y}', 'x := y',
             'yield x', 'yield', 'yield from x', 'await x', '*x', 'f"{x}"', '"s" "t"', 'x < y < z', 'x if y else (z if w else v)', '(x)', '((x + y))', 'x\n+\ny', 'x is y', 'x in y', '1.5', '1j', '...', 'x, ',
             'x for x in y', '"s"\n"t"', 'x  # c\n+ y', '(x\n, y)', 'x | y', 'x >> y', 'not x in y', '-x ** y', 'x.y(z)[w]', '{x}', '[x for x in y]', 'é + "ü"', 'lambda x, *y: (yield)', '(yield x)', '(x := y)', 'x,\ny', '1 .real', '1.0.real',
-            '-1 ** 2', 'x if y else lambda: z', '*x, y', 'None', 'b"b" b"c"', "f'{x!r:>{w}}'", '(\n    x\n)', 'x[y:z]', 'x @ y']
+            '-1 ** 2', 'x if y else lambda: z', '*x, y', 'None', 'b"b" b"c"', "f'{x!r:>{w}}'", '(\n    x\n)', 'x[y:z]', 'x @ y',
+            # replacements that bring their OWN parentheses, which the line structure needs (a comment ending in a backslash is not a line continuation)
+            '(x + # n \\\n y)', '(x # c\n + y)', '(x +\n y)', '(x, # t \\\n y)', '(x if y # q \\\n else z)', '(x and # \\\n y)']
 PATTERN_PARENTS = ['match s:\n    case a: pass', 'match s:\n    case [a, b]: pass', 'match s:\n    case a | b: pass', 'match s:\n    case {"k": a}: pass', 'match s:\n    case C(a, k=b): pass', 'match s:\n    case (a as b): pass',
                    'match s:\n    case [a, *b]: pass', 'match s:\n    case a | b | c: pass', 'match s:\n    case [a | b, c]: pass', 'match s:\n    case (a | b) as c: pass', 'match s:\n    case {"k": a | b}: pass']
 PATTERN_CHILDREN = ['x', '1', '-1', '1 + 2j', '"s"', 'None', '_', 'x.y', '[x, y]', 'x, y', '(x, y)', 'x | y', '(x | y)', 'x as y', '(x as y)', '{"k": x}', 'C(x)', 'C(x, k=y)', '*x', '[*x, y]', 'x |\ny', '(x\n| y)', '[x,  # c\n y]',
